@@ -117,6 +117,7 @@ type env struct {
 	hwm       int32
 	doneSeen  int32 // the channel returned by Shutdown has been observed closed
 	afterDone int32 // tasks that began to run after that
+	cstart    int32 // tasks that began to run with an already cancelled pool context
 	relAll    chan struct{}
 	relOnce   sync.Once
 	markOrder []int // ids of tasks run in marked mode, in the order ShutdownNow returned them
@@ -135,6 +136,7 @@ type vtask struct {
 	fin     int64 // sequence number at completion (0 = not finished)
 	rel     chan struct{}
 	relOnce sync.Once
+	body    func() // beh == "ext": what the task does
 	// submission record
 	sub      string
 	inv, res int64
@@ -158,6 +160,10 @@ func (t *vtask) Run(ctx context.Context) error {
 	if atomic.LoadInt32(&e.doneSeen) != 0 {
 		atomic.AddInt32(&e.afterDone, 1)
 	}
+	if ctx.Err() != nil {
+		// the ctx handed to tasks is interruptCtx: cancelled = the channel returned by Shutdown is closed
+		atomic.AddInt32(&e.cstart, 1)
+	}
 	cur := atomic.AddInt32(&e.running, 1)
 	for {
 		h := atomic.LoadInt32(&e.hwm)
@@ -174,6 +180,10 @@ func (t *vtask) Run(ctx context.Context) error {
 		select {
 		case <-t.rel:
 		case <-e.relAll:
+		}
+	case "ext":
+		if t.body != nil {
+			t.body()
 		}
 	case "panic":
 		panic("verif task panic")
@@ -685,7 +695,7 @@ func concCase(c conf, st *stats) string {
 	if int(atomic.LoadInt32(&gomax)) > st.MaxGoCnt {
 		st.MaxGoCnt = int(atomic.LoadInt32(&gomax))
 	}
-	fmt.Fprintf(&b, " dseq=%d done=%s %s", dseq, doneRes, fin)
+	fmt.Fprintf(&b, " dseq=%d done=%s cstart=%d %s", dseq, doneRes, atomic.LoadInt32(&e.cstart), fin)
 	return b.String()
 }
 
@@ -794,6 +804,219 @@ func aimCase(c conf, st *stats) string {
 }
 
 // ---------------------------------------------------------------------------------------------
+// directed scenarios
+
+// effective maxGo of a valid configuration (white-box from the hook, else from the options)
+func effMaxGo(c conf, p *pool.OnDemandBlockTaskPool) int {
+	if hs := p.VerifSnapshot(); hs.State >= 0 {
+		return int(hs.MaxGo)
+	}
+	m := c.i("init", 1)
+	if c.has("core") {
+		m = c.i("core", m)
+	}
+	if c.has("max") {
+		m = c.i("max", m)
+	}
+	return m
+}
+
+// burstCase (C11): `reps` rounds of a burst of `subs` submitters, released together by a spin barrier,
+// onto a running pool that may grow from initGo to maxGo; every task blocks until the round's
+// measurements are taken, so the tasks executing at once are the live workers.  Reported: the maxima over
+// all rounds of (tasks executing concurrently, States().GoCnt, totalGo seen by the hook).  Stops at the
+// first round in which one of them exceeds maxGo.
+func burstCase(c conf, st *stats) string {
+	reps, subs := c.i("reps", 100), c.i("subs", 16)
+	maxPeak, maxGoCnt, maxTotal, badRep, done, hangs := 0, -1, -1, -1, 0, 0
+	for rep := 0; rep < reps && badRep < 0; rep++ {
+		done++
+		p, err := mkPool(c)
+		if err != nil || p == nil {
+			return "ctor=" + pool.VerifErrKind(err)
+		}
+		mx := effMaxGo(c, p)
+		e := newEnv(p)
+		atomic.StoreInt32(&e.started, 1)
+		if err := p.Start(); err != nil {
+			return "start=" + pool.VerifErrKind(err)
+		}
+		sctx, scancel := context.WithCancel(context.Background())
+		var peakGo int32 = -1
+		var sampWg sync.WaitGroup
+		if ch, err := p.States(sctx, 100*time.Microsecond); err == nil {
+			sampWg.Add(1)
+			go func() {
+				defer sampWg.Done()
+				for s := range ch {
+					if s.GoCnt > atomic.LoadInt32(&peakGo) {
+						atomic.StoreInt32(&peakGo, s.GoCnt)
+					}
+				}
+			}()
+		}
+		var gate int32
+		var wg sync.WaitGroup
+		for i := 0; i < subs; i++ {
+			wg.Add(1)
+			t := e.newTask("block")
+			go func() {
+				defer wg.Done()
+				for n := 0; atomic.LoadInt32(&gate) == 0; n++ {
+					if n%64 == 63 {
+						runtime.Gosched()
+					}
+				}
+				t.sub = pool.VerifErrKind(p.Submit(context.Background(), t))
+			}()
+		}
+		time.Sleep(50 * time.Microsecond)
+		atomic.StoreInt32(&gate, 1)
+		wg.Wait()
+		// the workers pick the blocking tasks up; then look a little longer for one worker too many
+		total := -1
+		t0 := time.Now()
+		for time.Since(t0) < 3*time.Millisecond {
+			if hs := p.VerifSnapshot(); int(hs.TotalGo) > total {
+				total = int(hs.TotalGo)
+			}
+			r := int(atomic.LoadInt32(&e.hwm))
+			if r > mx || total > mx || int(atomic.LoadInt32(&peakGo)) > mx {
+				break
+			}
+			if r >= mx && time.Since(t0) > 1200*time.Microsecond {
+				break
+			}
+			time.Sleep(50 * time.Microsecond)
+		}
+		pk, gc := int(atomic.LoadInt32(&e.hwm)), int(atomic.LoadInt32(&peakGo))
+		if pk > maxPeak {
+			maxPeak = pk
+		}
+		if gc > maxGoCnt {
+			maxGoCnt = gc
+		}
+		if total > maxTotal {
+			maxTotal = total
+		}
+		if pk > mx || gc > mx || total > mx {
+			badRep = rep
+		}
+		e.releaseAll()
+		if d, err := p.Shutdown(); err == nil {
+			if waitDone(e, d) == "hang" {
+				hangs++
+				st.Hangs["burst"]++
+			}
+		}
+		scancel()
+		sampWg.Wait()
+		st.Tasks += len(e.tasks)
+		if hangs > 0 {
+			break
+		}
+	}
+	return fmt.Sprintf("ctor=ok reps=%d maxpeak=%d maxgocnt=%d maxtotal=%d badrep=%d hangs=%d", done, maxPeak, maxGoCnt,
+		maxTotal, badRep, hangs)
+}
+
+// handoffCase (C12): `rounds` rounds of: all workers but one busy with a task that ends on `release`,
+// one worker parked on the queue; Submit(last) (handed straight to the parked worker); Shutdown; release.
+// Graceful shutdown promises that the done channel (= the ctx given to the tasks) is not closed while an
+// accepted task is queued, received-but-not-started, or running: `last` must start with a live ctx and
+// must have finished when done is observed closed.  Variants: busy tasks spin or block on a channel
+// (alternating), pause before Submit(last) (park=µs), order=sr (Shutdown then release) | rs | c (both at once).
+func handoffCase(c conf, st *stats) string {
+	rounds := c.i("rounds", 50)
+	busy := c.i("busy", 1)
+	park := c.i("park", 100)
+	order := c.str("order", "sr")
+	early, cstart, hangs, badRound, done := 0, 0, 0, -1, 0
+	for r := 0; r < rounds && badRound < 0; r++ {
+		done++
+		p, err := mkPool(c)
+		if err != nil || p == nil {
+			return "ctor=" + pool.VerifErrKind(err)
+		}
+		e := newEnv(p)
+		atomic.StoreInt32(&e.started, 1)
+		if err := p.Start(); err != nil {
+			return "start=" + pool.VerifErrKind(err)
+		}
+		spin := r%2 == 0
+		var rel int32
+		relCh := make(chan struct{})
+		var startedBusy int32
+		for i := 0; i < busy; i++ {
+			t := e.newTask("ext")
+			t.body = func() {
+				atomic.AddInt32(&startedBusy, 1)
+				if spin {
+					for atomic.LoadInt32(&rel) == 0 {
+					}
+				} else {
+					<-relCh
+				}
+			}
+			t.sub = pool.VerifErrKind(p.Submit(context.Background(), t))
+		}
+		t0 := time.Now()
+		for int(atomic.LoadInt32(&startedBusy)) < busy && time.Since(t0) < 2*time.Second {
+			runtime.Gosched()
+		}
+		if park > 0 {
+			time.Sleep(time.Duration(park) * time.Microsecond)
+		}
+		last := e.newTask("ext")
+		last.body = func() { time.Sleep(200 * time.Microsecond) }
+		last.sub = pool.VerifErrKind(p.Submit(context.Background(), last))
+		release := func() {
+			atomic.StoreInt32(&rel, 1)
+			close(relCh)
+		}
+		var d <-chan struct{}
+		var serr error
+		switch order {
+		case "rs":
+			release()
+			d, serr = p.Shutdown()
+		case "c":
+			go release()
+			d, serr = p.Shutdown()
+		default:
+			d, serr = p.Shutdown()
+			release()
+		}
+		if serr != nil {
+			return "shutdown=" + pool.VerifErrKind(serr)
+		}
+		res := waitDone(e, d)
+		bad := false
+		if res == "hang" {
+			hangs++
+			st.Hangs["handoff"]++
+			bad = true
+		} else {
+			for _, t := range e.tasks {
+				if t.sub == "ok" && atomic.LoadInt64(&t.fin) == 0 {
+					early++
+					bad = true
+				}
+			}
+		}
+		if n := int(atomic.LoadInt32(&e.cstart)); n > 0 {
+			cstart += n
+			bad = true
+		}
+		if bad {
+			badRound = r
+		}
+		st.Tasks += len(e.tasks)
+	}
+	return fmt.Sprintf("ctor=ok rounds=%d early=%d cstart=%d hangs=%d badround=%d", done, early, cstart, hangs, badRound)
+}
+
+// ---------------------------------------------------------------------------------------------
 // run
 
 // hangBudget: once this many seq/conc scenarios have hung (each costs seconds), the remaining cases are
@@ -851,6 +1074,20 @@ func run(ops []string, out *vlib.Out, st *stats) {
 			case "aim":
 				var res string
 				pn := vlib.Catch(func() { res = aimCase(c, st) })
+				if pn != "" {
+					res = pn
+				}
+				out.Line("%s => %s", line, res)
+			case "burst":
+				var res string
+				pn := vlib.Catch(func() { res = burstCase(c, st) })
+				if pn != "" {
+					res = pn
+				}
+				out.Line("%s => %s", line, res)
+			case "handoff":
+				var res string
+				pn := vlib.Catch(func() { res = handoffCase(c, st) })
 				if pn != "" {
 					res = pn
 				}
